@@ -244,16 +244,29 @@ func Apply(doc bson.D, update bson.D, upsert bool, arrayFilters []bson.D) (*Upda
 			}
 		}
 	}
-	for i, p := range raws {
-		k := strings.Index(p, ".$[")
-		if k < 0 {
-			continue
-		}
-		head := p[:k]
-		for j, q := range raws {
-			if i != j && (q == head || strings.HasPrefix(q, head+".") || strings.HasPrefix(head, q+".")) {
-				return nil, outside("positional path next to another path on the same array")
+	// the static rule on the paths as written (positional segments taken literally): equal paths or prefix pairs conflict
+	for i := range raws {
+		for j := range raws {
+			if i < j && (raws[i] == raws[j] || strings.HasPrefix(raws[i], raws[j]+".") || strings.HasPrefix(raws[j], raws[i]+".")) {
+				return nil, reject("conflicting paths %q and %q", raws[i], raws[j])
 			}
+		}
+	}
+	// (two paths that both go through a positional operator at the same array are modelled: each identifier is
+	// resolved against the original document with its own filters, concrete overlaps were rejected above)
+	for i, p := range raws {
+		for k := strings.Index(p, ".$["); k >= 0; {
+			head := p[:k]
+			for j, q := range raws {
+				if i != j && (q == head || strings.HasPrefix(q, head+".") || strings.HasPrefix(head, q+".")) && !strings.HasPrefix(q, head+".$[") {
+					return nil, outside("positional path next to a plain path on the same array")
+				}
+			}
+			n := strings.Index(p[k+1:], ".$[")
+			if n < 0 {
+				break
+			}
+			k += 1 + n
 		}
 	}
 	for _, in := range invs {
